@@ -37,7 +37,7 @@ func VerifC15Results() {
 	if err := srv.Register("bank_", &VerifLedger{}); err != nil {
 		verifapi.Unreachable("c15.results-register")
 	}
-	id := []json.RawMessage{json.RawMessage("5"), json.RawMessage(`"abc"`)}[verifapi.Choose("id", 2)]
+	id := []json.RawMessage{json.RawMessage("5"), json.RawMessage(`"abc"`), json.RawMessage("-7"), json.RawMessage("0"), json.RawMessage("-1.5e3"), json.RawMessage(`""`)}[verifapi.Choose("id", 6)]
 	full, _ := json.Marshal([]interface{}{"alice", verifapi.Int64("amount")})
 	kind := verifapi.Choose("call", 5)
 	req := &Request{Method: []string{"bank_transfer", "bank_transfer", "bank_broken", "bank_refuse", "bank_void"}[kind]}
